@@ -827,7 +827,8 @@ fn family_memory(g: &mut G, rng: &mut Rng, thorough: bool) {
                 let p = mk_pkt(10_000 + i, None, 32, 8, inband, 96, 0, (i % 3) as u32, rng.bytes(32), false, None);
                 g.push(&p, T0 + i as i64);
             }
-            g.isexp(false);
+            // (no `isexp 0` here: with a 1 ms session time-out "not yet expired" races with the machine load;
+            //  the not-expired answer is covered under `no-timeouts` / 1 h time-outs, where it is deterministic)
             g.cleanup(T0 + n as i64, true);
             g.isexp(true);
             // life goes on after the cleanup
@@ -1151,7 +1152,7 @@ fn family_review(g: &mut G, rng: &mut Rng, thorough: bool) {
         g.end();
     }
 
-    // ---- C17 (review (iv)): WHICH activity refreshes the time-out.  40 ms time-outs, real sleeps
+    // ---- C17 (review (iv)): WHICH activity refreshes the time-out.  500 ms time-outs, real sleeps of 700 ms
     //      between two groups of pushes; the cleanup names exactly the timed-out objects / instances.
     {
         g.cfg2("stale-per-object", 2, true, true, 1 << 16, true, true, 0, false, 2);
@@ -1164,7 +1165,7 @@ fn family_review(g: &mut G, rng: &mut Rng, thorough: bool) {
         }
         let pa = mk_pkt(0, Some(7), 64, 64, true, 128, 0, 0, vec![2; 64], false, None);
         g.push(&pa, T0);
-        g.sleep(90);
+        g.sleep(700);
         // group B: a new object, a new unfinished instance, one more packet for object 62 (refreshes it),
         // and a complete FDT listing 61: attach_fdt does NOT refresh the time-out of 61
         let p = mk_pkt(63, None, 16, 8, false, 0, 0, 0, vec![1; 16], false, None);
@@ -1186,7 +1187,7 @@ fn family_review(g: &mut G, rng: &mut Rng, thorough: bool) {
         let p = mk_pkt(62, None, 16, 8, false, 0, 0, 2, vec![1; 16], false, None);
         g.push(&p, T0 + 3);
         g.push(&pb, T0 + 3);
-        g.sleep(90);
+        g.sleep(700);
         g.cleanup_spec(T0 + 4, &[62, 63], &[8]);
         g.ctx.step(g.eng, "recv expect 0 n 0 C17:stalled-object-kept-after-timeout");
         g.end();
@@ -1222,6 +1223,10 @@ fn family_review(g: &mut G, rng: &mut Rng, thorough: bool) {
             let d = mk_pkt_cenc(0, Some(3), e as u16, 4096, z.len() as u64, 0, i as u32, z[i * e..en].to_vec(), Cenc::Gzip);
             g.fz(&d, T0 + i as i64);
         }
+        // the 20 / 60 MB document is beyond MAX_FDT_SIZE: refused by the FDT writer, nothing of it is kept
+        // (regression guard of 2037586 on the INFLATED path, which is opaque to the model)
+        g.ctx.step(g.eng, "recv expect 0 b 0 C17:inflated-fdt-beyond-cap-kept");
+        g.ctx.step(g.eng, "recv expect 0 b 0 C04:inflated-fdt-beyond-cap-kept");
         g.ctx.step(g.eng, &format!("recv fzc {}", T0 + SEC));
         g.ctx.end_case(g.eng);
     }
@@ -1410,7 +1415,7 @@ fn family_review(g: &mut G, rng: &mut Rng, thorough: bool) {
     }
 
     // ---- C17 (seeded C17-5): an object stalls while NEW complete FDT instances keep arriving more often than
-    //      the object time-out (40 ms): the instances must not postpone it
+    //      the object time-out (500 ms; one instance every 300 ms): the instances must not postpone it
     {
         g.cfg2("stalled-object-fdt-carousel", 2, false, true, 1 << 16, true, true, 0, false, 2);
         g.ctx.nontrivial("stalled-object-fdt-carousel");
@@ -1418,14 +1423,14 @@ fn family_review(g: &mut G, rng: &mut Rng, thorough: bool) {
         let p = mk_pkt(66, None, 16, 8, true, 160, 0, 0, vec![1; 16], false, None);
         g.push(&p, T0);
         for k in 0..5u32 {
-            g.sleep(25);
+            g.sleep(300);
             // instance k lists 66 for k = 0 (attached once), other files afterwards
             let f = fdt_xml(&far(3), &[((if k == 0 { 66 } else { 300 + k }).to_string(), 160)], 16, 8);
             for pk in fdt_pkts(&f, 20 + k, 512, None) {
                 g.push(&pk, T0 + 1 + k as i64);
             }
         }
-        // 125 ms after its last packet
+        // 1.5 s after its last packet (time-out 500 ms)
         g.cleanup_spec(T0 + 10, &[66], &[]);
         g.ctx.step(g.eng, "recv expect 0 n 0 C17:stalled-object-kept-after-timeout");
         g.end();
